@@ -279,6 +279,13 @@ theorem scan_assemble_text_output (d : Delims) (hT : d.tagS = ['{', '%']) (hS : 
     scan d (assemble d ps) = matchesOf d 0 ps :=
   scan_assemble_partial d ps hwf (allMarkupFound_text_output d hT hS hE hC ps hk hwf)
 
+/-- The same for templates of text, output statements and shorthand `{# #}` comments (template comments on). -/
+theorem scan_assemble_text_output_short (d : Delims) (hT : d.tagS = ['{', '%']) (hS : d.stmtS = ['{', '{'])
+    (hE : plainDelim d.stmtE = true) (hC : d.cmtS = [] ∨ (d.cmtS = ['{', '#'] ∧ plainDelim d.cmtE = true))
+    (ps : List Piece) (hk : ps.all (fun p => p.isText || p.isOutput || p.isShort) = true) (hwf : srcWf d ps = true) :
+    scan d (assemble d ps) = matchesOf d 0 ps :=
+  scan_assemble_partial d ps hwf (allMarkupFound_text_output_short d hT hS hE hC ps hk hwf)
+
 /-- **End to end from the string** (same residual hypothesis): scanning, tokenizing and parsing the source string
 of any well-formed item list gives the specified nodes. -/
 theorem string_level_refines_spec_partial (d : Delims) (items : List Item) (hok : allOk items = true)
